@@ -8,7 +8,7 @@ import Nuts.Model.Tx
 import Nuts.Spec.DB
 import NutsProofs.Lemmas.BPTreeRefine
 import NutsProofs.Lemmas.Paging
-import NutsProofs.Facts
+import NutsProofs.Pins.BPT
 namespace NutsProofs.C03
 open Nuts Nuts.Model Nuts.Model.DB
 
